@@ -308,8 +308,16 @@ Theorem C10_concat_typed_values : forall (A : Type) (conv : dtype -> dtype -> A 
 Proof. exact @concat_t_spec. Qed.
 Print Assumptions C10_concat_typed_values.
 
-(* bound expansion against a float64 design vector: scalar and per-signal specifications of ANY dtype become float64
-   vectors holding the given values (converted to float64, never truncated); a per-variable sequence is kept as given *)
+(* what MMA.response leaves in xmin / xmax is float64 whatever the dtypes of the design vector and of the specification *)
+Theorem C10_bounds_expansion_dtype_float64 : forall (A : Type) (d : A) (conv : dtype -> dtype -> A -> A)
+    (zero : A) (xval : tarr A) nvars cum (b : tbspec A) r,
+  expand_bound_t d conv zero xval nvars cum b = Some r -> fst r = F64.
+Proof. exact @expand_t_dtype. Qed.
+Print Assumptions C10_bounds_expansion_dtype_float64.
+
+(* bound expansion against a float64 design vector: scalar, per-signal and per-variable specifications of ANY dtype
+   (Python lists / tuples included) become float64 vectors holding the given values (converted to float64 once, never
+   truncated) *)
 Theorem C10_bounds_expansion_typed : forall (A : Type) (d : A) (conv : dtype -> dtype -> A -> A),
   (forall a, conv F64 F64 a = a) -> forall (zero : A) (xs : list A) nvars cum sdt (l : list A) (a : A),
   expand_bound_t d conv zero (F64, xs) nvars cum (TBScal sdt a) = Some (F64, repeat (conv sdt F64 a) (length xs)) /\
@@ -320,11 +328,12 @@ Theorem C10_bounds_expansion_typed : forall (A : Type) (d : A) (conv : dtype -> 
      expand_move_t d conv zero (F64, xs) nvars cum (TBList sdt l)
      = Some (F64, fill_ranges d zero (length xs) cum (map (conv sdt F64) l))) /\
   (length l <> nvars ->
-     expand_bound_t d conv zero (F64, xs) nvars cum (TBList sdt l) = if length l =? length xs then Some (sdt, l) else None).
+     expand_bound_t d conv zero (F64, xs) nvars cum (TBList sdt l)
+     = if length l =? length xs then Some (F64, map (conv sdt F64) l) else None).
 Proof.
   intros A d conv Hc zero xs nvars cum sdt l a.
-  exact (conj (expand_t_scalar d conv zero xs nvars cum sdt a)
-        (conj (expand_t_per_signal d conv zero xs nvars cum sdt l)
+  exact (conj (expand_t_scalar d conv Hc zero xs nvars cum sdt a)
+        (conj (expand_t_per_signal d conv Hc zero xs nvars cum sdt l)
         (conj (expand_move_t_per_signal d conv zero xs nvars cum sdt l)
               (expand_t_per_variable d conv zero (F64, xs) nvars cum sdt l)))).
 Qed.
@@ -387,7 +396,7 @@ Proof. vm_compute. repeat split; reflexivity. Qed.
 (* integer-typed states (an int64 array and a Python int) with the per-signal bound [1/2, 3/2]: the design vector is
    float64 and the expanded bound holds 1/2 and 3/2.  The last line shows that the model does distinguish dtypes: the same
    expansion against an int64 vector of the same length (which a dtype-preserving concatenation would hand over)
-   truncates the bound to 0 and 1. *)
+   truncates the bound to 0 and 1 (before np.asarray(.., dtype=float) makes it float64 again). *)
 Definition ex_conv (src dst : dtype) (q : Q) : Q := match dst with I32 | I64 => inject_Z (Qfloor q) | _ => q end.
 Example C10_nonvacuous_typed :
   concat_to_array_t ex_conv [TVal I64 (Arr [2; 2; 2]); TVal I64 (Scal 3)] = Some ((F64, [2; 2; 2; 3]), [0; 3; 4]%nat) /\
@@ -395,5 +404,5 @@ Example C10_nonvacuous_typed :
     = Some (F64, [1 # 2; 1 # 2; 1 # 2; 3 # 2]) /\
   writeback_t 0 (F64, [2; 2; 2; 3]) [0; 3; 4]%nat 2 = [TVal F64 (Arr [2; 2; 2]); TVal F64 (Scal 3)] /\
   expand_bound_t 0 ex_conv 0 (I64, [2; 2; 2; 3]) 2 [0; 3; 4]%nat (TBList F64 [1 # 2; 3 # 2])
-    = Some (I64, [inject_Z 0; inject_Z 0; inject_Z 0; inject_Z 1]).
+    = Some (F64, [inject_Z 0; inject_Z 0; inject_Z 0; inject_Z 1]).
 Proof. vm_compute. repeat split; reflexivity. Qed.
